@@ -167,6 +167,88 @@ def run(ctx):
                                key=("hybrj-success-without-residual:%s:%s" % (name, "float128" if solver == "hybrj" else "float64")) if solver.startswith("hybrj") else "ntr-success-without-residual:" + name,
                                what="%s: system without a root, success claimed at x=%s" % (solver, np.asarray(x, dtype=float).reshape(-1)[:3]))
                 ctx.count("solver:%s:%s:%s" % (solver, name if not has_root else "has-root", "success" if bool(succ) else "failure"))
+    ntr_poor_model_block(ctx, rng)
+    consumer_block(ctx, rng)
+
+
+def consumer_block(ctx, rng):
+    """the consumer of the front-end in RungeKuttaIntegrator.step: `newton_iteration_success` is what the Lean model `consumerAccepts`
+    says about the (success, precision) pair nonlinear_roots returned and the tolerance it was given; and a stage solve the integrator
+    accepts has a small residual (stiff Van der Pol, coarse steps: MINPACK may claim success on its relative step criterion long before)"""
+    lines, cases = [], []
+    orig = OPT.nonlinear_roots
+    for cls in I.implicit_methods() if not ctx.quick() else [I.BackwardEuler, I.CrankNicolson, I.GaussLegendre4, I.RadauIIA5, I.LobattoIIIC4]:
+        for rep in range(3 if ctx.quick() else 10):
+            mu = rng.choice([1.0, 100.0, 1000.0])
+            h = rng.choice([1e-3, 1e-2, 0.1, 0.5]) * rng.choice([1, -1])
+            y0 = np.array([rng.uniform(-2, 2), rng.uniform(-2, 2)])
+            calls = []
+
+            def spy(fn, x0, jac=None, tol=None, **kw):
+                r = orig(fn, x0, jac=jac, tol=tol, **kw)
+                calls.append(dict(success=bool(r[1][0]), prec=float(r[1][-1]), tol=float(tol), x=np.array(r[0], dtype=np.float64), fn=fn, args=kw.get("additional_args", ())))
+                return r
+            f = DS.DiffRHS(lambda t, y, mu=mu: np.array([y[1], mu * (1 - y[0] ** 2) * y[1] - y[0]]))
+            integ = cls((2,), dtype=np.float64, rtol=1e-8, atol=1e-8)
+            inp = dict(kind="consumer", method=cls.__name__, mu=mu, h=h, y0=y0.tolist())
+            OPT.nonlinear_roots = spy
+            try:
+                integ.initial_rhs = f(np.float64(0.0), y0)
+                integ.step(f, np.float64(0.0), y0.copy(), {}, np.float64(h))
+            except Exception as e:
+                ctx.count("consumer:step-exception:" + type(e).__name__)
+                continue
+            finally:
+                OPT.nonlinear_roots = orig
+            if not calls:
+                ctx.count("consumer:no-front-end-call")
+                continue
+            c = calls[-1]
+            flag = bool(integ.solver_dict["newton_iteration_success"])
+            lines.append("consumer %d %s %s" % (int(c["success"]), fbits(c["prec"]), fbits(c["tol"])))
+            cases.append((inp, flag, c))
+            if flag:
+                try:
+                    G = np.asarray(c["fn"](c["x"], *c["args"]), dtype=np.float64)
+                    res = float(np.linalg.norm(G))
+                    ctx.oracle("accepted-stage-solve-has-small-residual", res <= 100 * c["tol"] * math.sqrt(G.size), dict(inp, residual=res, tol=c["tol"], reported_precision=c["prec"], backend_success=c["success"]),
+                               what="the integrator accepted a stage solve with ||G|| = %.3e (tolerance %.1e)" % (res, c["tol"]))
+                except Exception as e:
+                    ctx.count("consumer:residual-exception:" + type(e).__name__)
+            ctx.count("consumer:%s" % ("accepted" if flag else "rejected"))
+    outs = ctx.driver(lines)
+    for (inp, flag, c), o in zip(cases, outs):
+        ctx.corr("consumer-acceptance", (o == "true") == flag, dict(inp, backend_success=c["success"], precision=c["prec"], tol=c["tol"], impl=flag, model=o))
+
+
+def ntr_poor_model_block(ctx, rng):
+    """newtontrustregion called directly, with its DEFAULT damping (the front-end passes initial_trust_region=0), on systems whose linear
+    model predicts the residual badly: a root with a singular Jacobian (componentwise cube of a linear map), an exponential nonlinearity,
+    starts moderately to very far from the root, with the user Jacobian and with the finite-difference one"""
+    for n in ((5, 8) if ctx.quick() else (3, 5, 8, 12)):
+        A = np.eye(n) * 2 + 0.3 * np.cos(np.arange(n * n).reshape(n, n) + rng.choice([0.0, 0.5, 1.0]))
+        xs = np.sin(1.0 + np.arange(n))
+        for gs in ((0.5, 10.0) if ctx.quick() else (0.5, 3.0, 10.0, 100.0)):
+            x0 = xs + gs * np.cos(2.0 + np.arange(n))
+            systems = [("cube-singular-root", lambda x, A=A, xs=xs: (A @ (x - xs)) ** 3, lambda x, A=A, xs=xs: np.diag(3 * (A @ (x - xs)) ** 2) @ A),
+                       ("expm1-plus-linear", lambda x, A=A, xs=xs, n=n: np.exp(A @ (x - xs) / n) - 1 + 0.1 * (x - xs),
+                        lambda x, A=A, xs=xs, n=n: np.diag(np.exp(A @ (x - xs) / n)) @ A / n + 0.1 * np.eye(n))]
+            for (name, F, J) in systems:
+                for tol in (1e-6, 1e-10):
+                    for use_jac in (True, False):
+                        inp = dict(kind="solver", solver="ntr-default-damping", system=name, n=n, start_offset=gs, tol=tol, user_jacobian=use_jac)
+                        try:
+                            with np.errstate(all="ignore"):
+                                x, (succ, it, nf, nj, pr) = OPT.newtontrustregion(F, x0.copy(), jac=J if use_jac else None, tol=tol)
+                        except Exception as e:
+                            ctx.count("ntr-poor-model:exception:" + type(e).__name__)
+                            continue
+                        res = float(np.linalg.norm(np.asarray(F(np.asarray(x, dtype=np.float64).reshape(-1)), dtype=float)))
+                        if bool(succ):
+                            ctx.oracle("solver-success-means-small-residual", res <= 100 * n * tol, dict(inp, residual=res, iterations=int(it)),
+                                       key="ntr-success-without-residual:" + name, what="newtontrustregion (default damping) reported success with ||F|| = %.3e (100 n tol = %.1e)" % (res, 100 * n * tol))
+                        ctx.oracle("shape-preserved", np.shape(x) == np.shape(x0), inp, what="result shape %s, guess shape %s" % (np.shape(x), np.shape(x0)))
+                        ctx.count("ntr-poor-model:%s:%s" % (name, "success" if bool(succ) else "failure"))
 
 
 def replay(rep):
